@@ -49,11 +49,11 @@ Definition kELIM_MM : key := [AS s_ELIMINATION; AS s_MM].
 Definition kLAG_ON : key := [AS s_LAGTIME; AS s_ON].
 Definition kTR1 : key := [AS s_TRANSITS; AI 1; AS s_DEPOT].
 
-(* guard g_periph holds and a path really steps through two peripheral features *)
-Example periph_guard_nonvacuous :
-  g_periph [kABS_ZO; kP 1; kP 2] = true /\
-  In [kP 1; kABS_ZO; kP 2] (fst (exhaustive_stepwise not_supported_combo [kABS_ZO; kP 1; kP 2])).
-Proof. split; [reflexivity|vm_compute; tauto]. Qed.
+(* a path really steps through two peripheral features, in increasing order *)
+Example periph_path_nonvacuous :
+  In [kP 1; kABS_ZO; kP 2] (fst (exhaustive_stepwise not_supported_combo [kABS_ZO; kP 1; kP 2])) /\
+  ~ In [kP 2; kABS_ZO; kP 1] (fst (exhaustive_stepwise not_supported_combo [kABS_ZO; kP 1; kP 2])).
+Proof. split; [vm_compute; tauto|]. vm_compute. intuition discriminate. Qed.
 
 (* the documented example ABSORPTION(ZO); ELIMINATION(MM); PERIPHERALS(1): 15 candidates, the loop ends *)
 Example stepwise_doc_example :
@@ -61,12 +61,10 @@ Example stepwise_doc_example :
   snd (exhaustive_stepwise not_supported_combo [kABS_ZO; kELIM_MM; kP 1]) = true.
 Proof. split; vm_compute; reflexivity. Qed.
 
-(* ... and its reduced version: 12 candidates and 3 'Best model' collectors as in the documentation's graph;
-   the guard g_reduced_groups holds for it *)
+(* ... and its reduced version: 12 candidates and 3 'Best model' collectors as in the documentation's graph *)
 Example reduced_doc_example :
   let r := reduced_stepwise not_supported_combo [kABS_ZO; kELIM_MM; kP 1] in
-  length (fst (fst (fst r))) = 12 /\ length (snd (fst (fst r))) = 3 /\ snd (fst r) = true /\
-  g_reduced_groups not_supported_combo [kABS_ZO; kELIM_MM; kP 1] = true.
+  length (fst (fst r)) = 12 /\ length (snd (fst r)) = 3 /\ snd r = true.
 Proof. repeat split; vm_compute; reflexivity. Qed.
 
 (* an excluded combination really prunes: ZO absorption and transits are never on one path *)
@@ -77,19 +75,16 @@ Example excluded_combo_example :
   length (fst (exhaustive_stepwise not_supported_combo [kABS_ZO; kTR1; kLAG_ON])) = 5.
 Proof. split; [cbn; tauto|]. split; vm_compute; reflexivity. Qed.
 
-(* guard g_periph_sorted holds on a space with two peripheral features; both rules accept PERIPHERALS(2)
-   after PERIPHERALS(1) and reject it at the root *)
-Example periph_sorted_guard_nonvacuous :
-  g_periph_sorted [kABS_ZO; kP 1; kP 2] = true /\
+(* the documented rule accepts PERIPHERALS(2) after PERIPHERALS(1) and rejects it at the root *)
+Example doc_rule_example :
   doc_allowed not_supported_combo [kABS_ZO; kP 1; kP 2] (kP 2) [kP 1] = true /\
   doc_allowed not_supported_combo [kABS_ZO; kP 1; kP 2] (kP 2) [] = false.
 Proof. repeat split; vm_compute; reflexivity. Qed.
 
-(* ---- exhaustive(): one category, several features: every combination is a single feature ---- *)
-Example all_same_cat_nonvacuous :
-  all_same_cat kcat atom_eqb [kABS_ZO; [AS s_ABSORPTION; AS s_FO]; [AS s_ABSORPTION; AS s_INST]] = true /\
-  length (all_combinations kcat atom_eqb [kABS_ZO; [AS s_ABSORPTION; AS s_FO]; [AS s_ABSORPTION; AS s_INST]]) = 3.
-Proof. split; vm_compute; reflexivity. Qed.
+(* ---- exhaustive(): a combination of three features gets three aligned (key, function) pairs ---- *)
+Example exhaustive_pairs_nonvacuous :
+  In [(kABS_ZO, kABS_ZO); (kELIM_MM, kELIM_MM); (kP 1, kP 1)] (exhaustive_pairs kcat atom_eqb [kABS_ZO; kELIM_MM; kP 1]).
+Proof. vm_compute. tauto. Qed.
 
 (* ---- the search-space algebra ---- *)
 From PV Require Import C18.MflModel C18.MflSpec C18.MflProofs.
@@ -143,7 +138,7 @@ Definition ex_space_2 : mf :=
        [mkC [n_CL] [n_WGT] (MList [s_EXP]) n_STAR true] (Some (MList [s_SIGMOID; s_EMAX; s_LINEAR])) None [] None.
 Example eq_guards_nonvacuous :
   wf_eq_space ex_space_1 = true /\ wf_eq_space ex_space_2 = true /\
-  g_cov_symmetric ex_space_1 ex_space_2 = true /\ g_tuples_canonical ex_space_1 ex_space_2 = true /\
+  g_tuples_canonical ex_space_1 ex_space_2 = true /\
   g_same_metabolite ex_space_1 ex_space_2 = true /\
   mf_eq ex_space_1 ex_space_2 = Ok true /\
   mf_eq ex_space_1 (dflt_space (MList [s_FO])) = Ok false /\ g_tuples_canonical ex_space_1 (dflt_space (MList [s_FO])) = true.
@@ -164,9 +159,9 @@ Example let_guard_nonvacuous :
   g_let_not_forced l = true /\ validate l = true /\ validate (printed l) = true.
 Proof. repeat split; vm_compute; reflexivity. Qed.
 
-(* Transits.__eq__ on equal statements *)
+(* Transits.__eq__ on equal statements written differently *)
 Example transits_eq_nonvacuous :
-  transits_stmt_eq (mkP (MList [1; 2]) (MList [s_DEPOT])) (mkP (MList [2; 1]) (MList [s_DEPOT])) = Some (true, true) /\
+  transits_stmt_eq (mkP (MList [1; 2]) (MList [s_DEPOT])) (mkP (MList [2; 1]) (MList [s_DEPOT])) = Some true /\
   seteqb pair_eqb (E_stmt [] w_depot (mkP (MList [1; 2]) (MList [s_DEPOT]))) (E_stmt [] w_depot (mkP (MList [2; 1]) (MList [s_DEPOT]))) = true.
 Proof. split; vm_compute; reflexivity. Qed.
 
@@ -178,12 +173,11 @@ Example lnt_example :
   forallb periph_plain [mkP (MList [2; 1]) (MList [s_DRUG])] = true.
 Proof. repeat split; vm_compute; reflexivity. Qed.
 
-(* the collector step of the documented example after layer 2: three groups of two, none is "the single one" *)
+(* the collector step of the documented example after layer 2: three expandable groups of two *)
 Definition ex_layer2 : list leaf :=
   [(PCand 4, [kABS_ZO; kELIM_MM]); (PCand 5, [kABS_ZO; kP 1]); (PCand 6, [kELIM_MM; kABS_ZO]);
    (PCand 7, [kELIM_MM; kP 1]); (PCand 8, [kP 1; kABS_ZO]); (PCand 9, [kP 1; kELIM_MM])].
-Example collect_guard_nonvacuous :
-  single_group not_supported_combo [kABS_ZO; kELIM_MM; kP 1] ex_layer2 = false /\
+Example collect_nonvacuous :
   length (same_model_groups ex_layer2) = 3%nat /\
   forallb (forallb (has_actions not_supported_combo [kABS_ZO; kELIM_MM; kP 1])) (same_model_groups ex_layer2) = true /\
   map fst (fst (collect not_supported_combo [kABS_ZO; kELIM_MM; kP 1] 0 ex_layer2)) = [PColl 0; PColl 1; PColl 2].
